@@ -350,6 +350,14 @@ def check_builtin(case):
 
     def build(ignore):
         cs, ps = make_saving(case["coll"], p), make_saving(case["point"], p)
+        if case.get("history") == "scorer_handle_reconfigured" and rebase is None:
+            # the collective saving had another baseline when the detector was constructed around it; it was set to the final
+            # one through the caller's own handle afterwards
+            cs, finish, _ = K.detour_handle(cs)
+            det_ = CAPA(cs, ps, case["c_scale"], case["p_scale"], msl, maxl, ignore) if case["detector"] == "CAPA" else \
+                MVCAPA(cs, ps, case["c_pen"], case["c_scale"], case["p_pen"], case["p_scale"], msl, maxl, ignore)
+            finish()
+            return det_
         if rebase is not None:
             det_ = CAPA(cs, ps, case["c_scale"], case["p_scale"], msl, maxl, ignore) if case["detector"] == "CAPA" else \
                 MVCAPA(cs, ps, case["c_pen"], case["c_scale"], case["p_pen"], case["p_scale"], msl, maxl, ignore)
